@@ -24,11 +24,11 @@ Two halves.
     ``state(termination)`` masks grow by exactly what was applied; nothing already
     applied is reported again; nothing raises; Solve returns inside the horizon.
 """
-import itertools, traceback
+import itertools, traceback, json
 import numpy as np
 from mc import solverlab, env
 from mc import c11_lab as L
-from mc.runner import Tally, digest
+from mc.runner import Tally, digest, jsonable
 from ref import c11_detect as ref
 
 V = (0.0, 1e-5, 1.0)
@@ -59,6 +59,17 @@ def histories(vectors, length, prefix=()):
     prefix = tuple(tuple(p) for p in prefix)
     for h in itertools.product(list(vectors), repeat=length - len(prefix)):
         yield prefix + h
+
+
+def _viol(T, sig, case, detail):
+    """T.violate with lazily built case / detail (a mutant can make millions of cases fail)"""
+    key = json.dumps(jsonable(sig), sort_keys=True)
+    v = T.violations.get(key)
+    if v is not None:
+        v['count'] += 1
+        T.count('violations_raw')
+        return
+    T.violate(sig, case() if callable(case) else case, detail() if callable(detail) else detail)
 
 
 def _err(e):
@@ -107,9 +118,9 @@ def at_case(T, mon, hist, target, tol, gens, mask, base=None):
     try:
         got = ct.collapse_at(mon, target=target, tolerance=tol, generations=gens, mask=None if mask is None else set(mask))
     except Exception as e:
-        c = case()
-        T.violate(sig(clause='raised', error=type(e).__name__), c,
-                  'collapse_at(%s) raised %s; the definition gives %s' % (_show(c), _err(e), sorted(want)))
+        err = _err(e)
+        _viol(T, sig(clause='raised', error=type(e).__name__), case,
+              lambda: 'collapse_at(%s) raised %s; the definition gives %s' % (_show(case()), err, sorted(want)))
         return
     T.count('transitions')
     ok = type(got) is set
@@ -118,11 +129,10 @@ def at_case(T, mon, hist, target, tol, gens, mask, base=None):
     except Exception:
         g, ok = None, False
     if not ok or g != want:
-        c = case()
-        T.violate(sig(clause='definition', window='short' if gens < len(hist) else 'covers',
-                      dir='extra' if (g is not None and g - want) else 'missing'), c,
-                  'collapse_at(%s) = %r, the documented definition over the last %d entries minus the mask gives %s'
-                  % (_show(c), got, gens, sorted(want)))
+        _viol(T, sig(clause='definition', window='short' if gens < len(hist) else 'covers',
+                     dir='extra' if (g is not None and g - want) else 'missing'), case,
+              lambda: 'collapse_at(%s) = %r, the documented definition over the last %d entries minus the mask gives %s'
+              % (_show(case()), got, gens, sorted(want)))
         return
     if got:
         # idempotence: the detector's own output, added to the mask, leaves nothing
@@ -133,9 +143,8 @@ def at_case(T, mon, hist, target, tol, gens, mask, base=None):
             again = _err(e)
         T.count('transitions')
         if again != set():
-            c = case()
-            T.violate(sig(clause='idempotence'), c,
-                      'collapse_at(%s) = %r; with that output added to the mask it still reports %r' % (_show(c), got, again))
+            _viol(T, sig(clause='idempotence'), case,
+                  lambda: 'collapse_at(%s) = %r; with that output added to the mask it still reports %r' % (_show(case()), got, again))
 
 
 def shard_at(item):
@@ -223,9 +232,9 @@ def as_case(T, mon, hist, offset, tol, gens, mask, base=None):
     try:
         got = ct.collapse_as(mon, offset=offset, tolerance=tol, generations=gens, mask=None if mask is None else set(mask))
     except Exception as e:
-        c = case()
-        T.violate(sig(clause='raised', error=type(e).__name__, dim='1' if len(hist[0]) == 1 else 'n'), c,
-                  'collapse_as(%s) raised %s; the definition gives %s' % (_show(c), _err(e), sorted(want)))
+        err = _err(e)
+        _viol(T, sig(clause='raised', error=type(e).__name__, dim='1' if len(hist[0]) == 1 else 'n'), case,
+              lambda: 'collapse_as(%s) raised %s; the definition gives %s' % (_show(case()), err, sorted(want)))
         return
     T.count('transitions')
     ok = type(got) is set
@@ -235,11 +244,10 @@ def as_case(T, mon, hist, offset, tol, gens, mask, base=None):
     except Exception:
         g, ok = None, False
     if not ok or g != want:
-        c = case()
-        T.violate(sig(clause='definition', window='short' if gens < len(hist) else 'covers',
-                      dir='extra' if (g is not None and g - want) else 'missing'), c,
-                  'collapse_as(%s) = %r, the documented definition over the last %d entries minus the mask gives %s'
-                  % (_show(c), got, gens, sorted(want)))
+        _viol(T, sig(clause='definition', window='short' if gens < len(hist) else 'covers',
+                     dir='extra' if (g is not None and g - want) else 'missing'), case,
+              lambda: 'collapse_as(%s) = %r, the documented definition over the last %d entries minus the mask gives %s'
+              % (_show(case()), got, gens, sorted(want)))
         return
     if got:
         m2 = set(got) if mask is None else (set(mask) | set(got))
@@ -249,9 +257,8 @@ def as_case(T, mon, hist, offset, tol, gens, mask, base=None):
             again = _err(e)
         T.count('transitions')
         if again != set():
-            c = case()
-            T.violate(sig(clause='idempotence'), c,
-                      'collapse_as(%s) = %r; with that output added to the mask it still reports %r' % (_show(c), got, again))
+            _viol(T, sig(clause='idempotence'), case,
+                  lambda: 'collapse_as(%s) = %r; with that output added to the mask it still reports %r' % (_show(case()), got, again))
 
 
 def shard_as(item):
@@ -379,9 +386,10 @@ def measure_case(T, which, mon, hist, npts, tol, gens, fmt, items, base=None):
     try:
         got = det(mon, tolerance=tol, generations=gens, mask=_build_mask(fmt, items))
     except Exception as e:
-        T.violate({'half': 'detector', 'detector': name, 'clause': 'raised', 'error': type(e).__name__,
-                   'npts': 'ragged' if len(set(npts)) > 1 else 'uniform'}, case(),
-                  '%s raised %s; the definition gives %s' % (call(), _err(e), _sorted(want)))
+        err = _err(e)
+        _viol(T, {'half': 'detector', 'detector': name, 'clause': 'raised', 'error': type(e).__name__,
+                  'npts': 'ragged' if len(set(npts)) > 1 else 'uniform'}, case,
+              lambda: '%s raised %s; the definition gives %s' % (call(), err, _sorted(want)))
         return
     T.count('transitions')
     fam = _fmt_family(fmt)
@@ -393,14 +401,14 @@ def measure_case(T, which, mon, hist, npts, tol, gens, fmt, items, base=None):
     except Exception:
         g, okfmt = None, False
     if g != want:
-        T.violate(sig(clause='definition', window='short' if gens < len(hist) else 'covers',
-                      dir='extra' if (g is not None and g - want) else 'missing'), case(),
-                  '%s = %r, the documented definition over the last %d entries minus the mask gives %s'
-                  % (call(), got, gens, _sorted(want)))
+        _viol(T, sig(clause='definition', window='short' if gens < len(hist) else 'covers',
+                     dir='extra' if (g is not None and g - want) else 'missing'), case,
+              lambda: '%s = %r, the documented definition over the last %d entries minus the mask gives %s'
+              % (call(), got, gens, _sorted(want)))
         return
     if not okfmt:
-        T.violate(sig(clause='format'), case(),
-                  '%s answered %r: not in the format of the mask (%s)' % (call(), got, fam))
+        _viol(T, sig(clause='format'), case,
+              lambda: '%s answered %r: not in the format of the mask (%s)' % (call(), got, fam))
         return
     if g:
         m2 = ref.union_mask(_build_mask(fmt, items), got)
@@ -411,8 +419,8 @@ def measure_case(T, which, mon, hist, npts, tol, gens, fmt, items, base=None):
             again, empty = _err(e), False
         T.count('transitions')
         if not empty:
-            T.violate(sig(clause='idempotence'), case(),
-                      '%s = %r; with that output added to the mask (%r) it still reports %r' % (call(), got, m2, again))
+            _viol(T, sig(clause='idempotence'), case,
+                  lambda: '%s = %r; with that output added to the mask (%r) it still reports %r' % (call(), got, m2, again))
 
 
 def shard_measure(item):
@@ -536,12 +544,30 @@ TERMS = {
     'no_stop': ['Or', ['At', None, T10, 2, None], ['As', False, T4, 2, None]],
     'and_stop': ['And', COG, ['At', None, T4, 2, None]],
 }
+COG8 = ['COG', 1e-8, 5]
+MTERMS = {
+    'w': ['Or', COG8, ['W', T4, 2, None]],
+    'p': ['Or', COG8, ['P', T4, 2, None]],
+    'wp': ['Or', COG8, ['W', T4, 2, None], ['P', T4, 2, None]],
+    'wp_and': ['Or', COG8, ['And', ['W', T4, 2, None], ['P', T4, 2, None]]],
+    'w_dictmask': ['Or', COG8, ['W', T4, 2, ['dict', [[0, 0], [1, 1]]]]],   # shares measure 0 with the weight that collapses
+    'p_dictmask': ['Or', COG8, ['P', T4, 2, ['dict', [[0, [1, 0]]]]]],
+    'w_set': ['Or', COG8, ['W', T4, 2, ['set', []]]],
+    'w_set1': ['Or', COG8, ['W', T4, 2, ['set', [[1, 1]]]]],
+    'w_where': ['Or', COG8, ['W', T4, 2, ['where', []]]],
+    'p_set': ['Or', COG8, ['P', T4, 2, ['set', []]]],
+    'p_where1': ['Or', COG8, ['P', T4, 2, ['where', [[0, [0, 1]]]]]],
+}
+TERMS.update(MTERMS)
+QUICK_MTERMS = ['w', 'p', 'wp', 'w_dictmask', 'w_set', 'p_where1']
 QUICK_TERMS = ['at_none', 'at_none_g1', 'at_none_masked', 'at_0', 'at_list', 'as_wide', 'as_masked', 'as_offset',
                'at0_as', 'and', 'mixed_tol', 'no_stop']
 SETUPS = {
     'flat3': {'cost': 'flat', 'dim': 3, 'x0': [2.0 ** -5, 0.5, 0.75]},
     'tied3': {'cost': 'c11_tied', 'dim': 3, 'x0': [2.0 ** -5, 0.5, 0.75]},
     'flat2': {'cost': 'flat', 'dim': 2, 'x0': [2.0 ** -5, 0.5]},
+    # a (2,2) product measure: weight (0,1) starts at 0, the positions of measure 1 start 2**-7 apart
+    'meas22': {'cost': 'c11_measure22', 'dim': 8, 'npts': [2, 2], 'x0': [1.0, 0.0, 0.75, 0.25, 0.5, 0.5, 0.5, 0.5 + 2.0 ** -7]},
 }
 OPS = [['Step'], ['StepTo', 40], ['Collapse'], ['Solve']]
 
@@ -559,7 +585,8 @@ def structured():
 
 
 def solver_cfg(solver, setup, term, seed, init='point'):
-    cfg = {'solver': solver, 'seed': seed, 'term': term, 'term11': TERMS[term], 'setup': setup, 'limits': [120, 1500],
+    cfg = {'solver': solver, 'seed': seed, 'term': term, 'term11': TERMS[term], 'setup': setup,
+           'limits': [40, 400] if term == 'no_stop' else [120, 1500],
            'horizon': 4000, 'init': init, 'initbox': 'unit', 'npop': 4}
     cfg.update(SETUPS[setup])
     return cfg
@@ -567,6 +594,10 @@ def solver_cfg(solver, setup, term, seed, init='point'):
 
 def _term_targets(spec):
     return sorted(set(_tname(l[1]) for l in L.leaves(spec) if l[0] == 'At'))
+
+
+def _term_formats(spec):
+    return sorted(set(('dict' if l[3] is None else l[3][0]) for l in L.leaves(spec) if l[0] in ('W', 'P')))
 
 
 class Judge(object):
@@ -596,6 +627,17 @@ class Judge(object):
                 off = bool(kw.get('offset'))
                 self.rels.append({'rel': 'as_offset' if off else 'as', 'i': i, 'j': j, 'start': ev.nlog})
                 self.kinds.append('as_offset' if off else 'as')
+            elif kind == 'CollapseWeight':
+                m, k = it
+                i = ref.layout(self.lab.cfg['npts'])[m][0][k]
+                self.rels.append({'rel': 'weight', 'i': i, 'value': 0.0, 'start': ev.nlog})
+                self.kinds.append('weight')
+            elif kind == 'CollapsePosition':
+                m, pair = it
+                a, b = sorted(pair)
+                pos = ref.layout(self.lab.cfg['npts'])[m][1]
+                self.rels.append({'rel': 'position', 'i': pos[a], 'j': pos[b], 'start': ev.nlog})
+                self.kinds.append('position')
 
     def _overlap(self, r):
         """does another applied collapse touch a parameter of this one? (classification only)"""
@@ -613,7 +655,10 @@ class Judge(object):
                 return None
             if x[r['i']] != r['value']:
                 return 'x[%d] = %r, fixed at %r by the collapse' % (r['i'], x[r['i']], r['value'])
-        elif k == 'as':
+        elif k == 'weight':
+            if x[r['i']] != 0.0:
+                return 'weight x[%d] = %r, fixed at 0.0 by the collapse' % (r['i'], x[r['i']])
+        elif k in ('as', 'position'):
             if x[r['i']] != x[r['j']]:
                 return 'x[%d] = %r differs from its partner x[%d] = %r' % (r['j'], x[r['j']], r['i'], x[r['i']])
         return None
@@ -636,14 +681,14 @@ class Judge(object):
                 if ident in ev.before:
                     applied[ident] = L.canon_mask(ident[0], items)
                 else:
-                    out.append((dict(base, clause='collapse_names_unknown_condition', driver=driver),
+                    out.append((dict(base, clause='collapse_names_unknown_condition'),
                                 'Collapse() returned %r which is not a condition of the termination' % doc[:80]))
             if ev.returned:
                 self.stats['collapses'] += 1
                 T.hist('X:collapse_applied_by', 'Solve loop' if ev.in_solve else 'manual Collapse()')
             # masks grow by exactly what was applied, nothing else changes
             if set(ev.after) != set(ev.before) or ev.others_after != ev.others_before:
-                out.append((dict(base, clause='termination_changed', driver=driver),
+                out.append((dict(base, clause='termination_changed'),
                             'Collapse() changed the set of conditions: before %s + %s, after %s + %s'
                             % (sorted(k[0] for k in ev.before), ev.others_before, sorted(k[0] for k in ev.after), ev.others_after)))
             for ident, (kind, kw, mask) in ev.before.items():
@@ -653,14 +698,14 @@ class Judge(object):
                 got = ev.after[ident][2]
                 if got != want:
                     how = 'lost_old' if (set(mask) - got) else ('missing_new' if (want - got) else 'extra')
-                    out.append((dict(base, clause='mask_growth', how=how, kind=kind, driver=driver),
+                    out.append((dict(base, clause='mask_growth', how=how, kind=kind),
                                 '%s mask was %s, Collapse() applied %s, mask is now %s (expected %s)'
                                 % (kind, _fmt(mask), _fmt(applied.get(ident, set())), _fmt(got), _fmt(want))))
             for ident, items in applied.items():
                 kind, kw, mask = ev.before[ident]
                 again = set(it for it in items if _covered(kind, it, mask) or it in self.applied.get(ident, set()))
                 if again:
-                    out.append((dict(base, clause='reported_twice', kind=kind, driver=driver),
+                    out.append((dict(base, clause='reported_twice', kind=kind),
                                 'Collapse() applied %s of %s again (mask before the call: %s)' % (_fmt(again), kind, _fmt(mask))))
                 self.applied.setdefault(ident, set()).update(items)
                 self._add_relations(ev, kind, kw, items)
@@ -693,7 +738,7 @@ class Judge(object):
                     kind, kw, mask = now[ident]
                     again = set(it for it in items if _covered(kind, it, mask))
                     if again:
-                        out.append((dict(base, clause='reported_again', kind=kind, driver=driver),
+                        out.append((dict(base, clause='reported_again', kind=kind),
                                     'stop message reports %s of %s although the mask is %s' % (_fmt(again), kind, _fmt(mask))))
         # ---- the final solution
         stopped = (name == 'Solve' and not abnormal) or (msg and not L.only_collapse(msg))
@@ -717,7 +762,8 @@ class Judge(object):
             else:
                 in_collapse = bool(lab.events) and lab.events[-1].raised is not None
                 out.append(({'half': 'solver', 'clause': 'raised', 'error': outcome[1], 'during': 'Collapse' if in_collapse else 'other',
-                             'targets': '+'.join(_term_targets(cfg['term11'])) or 'n/a'},
+                             'targets': '+'.join(_term_targets(cfg['term11'])) or 'n/a',
+                             'measure_mask_formats': '+'.join(_term_formats(cfg['term11'])) or 'n/a'},
                             '%s raised %s: %s%s' % (name, outcome[1], outcome[2],
                                                     (' while applying the collapse %s' % _pending(lab)) if in_collapse else '')))
         return out
@@ -857,10 +903,10 @@ def detector_items(ctx):
             for f in v3:
                 items.append((sect, (3, 3, (f,), top)))
             for f in _prefixes(v3, 2):
-                items.append((sect, (3, 4, f, 1)))
+                items.append((sect, (3, 4, f, 0)))
         else:
             for f in v3:
-                items.append((sect, (3, 3, (f,), 1 if sect == 'A' else 0)))
+                items.append((sect, (3, 3, (f,), 0)))
     # ---- measure detectors: (which, npts, length, prefix indices, mask level, background)
     for which, sect in (('w', 'W'), ('p', 'P')):
         for n in (1, 2, 3):
@@ -872,7 +918,7 @@ def detector_items(ctx):
         items.append((sect, (which, (2, 2), 1, (), 3, 0.0)))
         for f in range(81):
             items.append((sect, (which, (2, 2), 2, (f,), 3 if th else (1 if which == 'w' else 0), 1.0)))
-        if th:
+        if th and which == 'w':
             for f in itertools.product(range(81), repeat=2):
                 items.append((sect, (which, (2, 2), 3, f, 0, 1.0)))
         # unequal numbers of support points
@@ -890,25 +936,26 @@ def detector_items(ctx):
 
 def solver_items(ctx):
     th = ctx.thorough
-    terms = sorted(TERMS) if th else QUICK_TERMS
-    seeds = [ctx.seed, ctx.seed + 1] + ([ctx.seed + 2, ctx.seed + 3] if th else [])
+    pterms = sorted(k for k in TERMS if k not in MTERMS) if th else QUICK_TERMS
+    mterms = sorted(MTERMS) if th else QUICK_MTERMS
+    seeds = [ctx.seed, ctx.seed + 1] + ([ctx.seed + 2] if th else [])
     depth = 4 if th else 3
     cfgs = []
     for solver in solverlab.SOLVERS:
-        for setup in (sorted(SETUPS) if th else ['flat3', 'tied3']):
-            for term in terms:
+        for setup in (sorted(SETUPS) if th else ['flat3', 'tied3', 'meas22']):
+            for term in (mterms if setup == 'meas22' else pterms):
                 if SETUPS[setup]['dim'] == 2 and term in ('at_list', 'as_masked'):
                     continue
                 if solver.startswith('DE'):
-                    for k, seed in enumerate(seeds):
-                        cfgs.append(solver_cfg(solver, setup, term, seed, 'random' if k % 2 else 'point'))
+                    for k, seed in enumerate(seeds[:1] if (setup == 'meas22' and not th) else seeds):
+                        cfgs.append(solver_cfg(solver, setup, term, seed, 'random' if (k % 2 and setup != 'meas22') else 'point'))
                 else:
                     cfgs.append(solver_cfg(solver, setup, term, ctx.seed))
     items = []
     for cfg in cfgs:
         items.append(('X', (cfg, 'structured', None)))
         for first in range(len(OPS)):
-            items.append(('X', (cfg, 'general', (depth, first))))
+            items.append(('X', (cfg, 'general', (depth - 1 if cfg['setup'] == 'meas22' else depth, first))))
     det = [solver_cfg(sv, 'flat3', 'at0_as', ctx.seed, 'random' if sv.startswith('DE') else 'point') for sv in solverlab.SOLVERS]
     items.append(('D', det))
     return items, cfgs, depth
@@ -919,26 +966,43 @@ def run(ctx):
     sitems, cfgs, depth = solver_items(ctx)
     # heavy shards first so the pool stays busy
     items = sitems + ditems
+    table = {}
+    for sect, payload in ditems:
+        if sect in ('A', 'S'):
+            key = '%s dim=%d length=%d' % ({'A': 'collapse_at', 'S': 'collapse_as'}[sect], payload[0], payload[1])
+            lvl = payload[3]
+        elif sect in ('W', 'P'):
+            key = '%s npts=%s length=%d unread_half=%s' % ({'W': 'collapse_weight', 'P': 'collapse_position'}[sect],
+                                                          tuple(payload[1]), payload[2], payload[5])
+            lvl = payload[4]
+        else:
+            continue
+        table[key] = 'mask level %d' % lvl
     ctx.bounds = {
         'detectors': {
             'values': list(V), 'tolerances': list(TOLS), 'windows': list(WINDOWS),
-            'collapse_at': {'dims': [1, 2, 3], 'targets': ['None', 0.0, [1.0, 0.0, 1e-5]],
-                            'lengths': {'dim1': 4, 'dim2': 4, 'dim3': 4 if ctx.thorough else 3},
-                            'masks': 'None + every subset of indices; for the longest length of dim 2 (quick) / dim 3: None + one mask'},
-            'collapse_as': {'dims': [1, 2, 3], 'offset': [False, True], 'lengths': {'dim1': 4, 'dim2': 4, 'dim3': 4 if ctx.thorough else 3},
-                            'masks': 'None + every subset of indices + every subset of pairs in both orientations + every index/pair mix; '
-                                     'for the longest length of dim 2 (quick) / dim 3: None + one mixed mask'},
-            'measures': {'npts': [[2], [2, 2], [3, 2]], 'formats': ['dict', 'set of tuples', 'where tuple', 'where list', 'dict with empty entry', '()'],
-                         'lengths': {'(2,)': 4, '(2,2)': 3 if ctx.thorough else 2, '(3,2)': 2 if ctx.thorough else 1},
-                         'masks': 'every subset of the (measure,index) / (measure,pair both orientations) universe x 3 formats on the shorter lengths, '
-                                  'a covering selection or one per format on the longest',
-                         'unread_half_of_the_vector': [1.0, 0.0]},
+            'collapse_at_targets': ['None', 0.0, [1.0, 0.0, 1e-5]], 'collapse_as_offset': [False, True],
+            'histories': 'ALL sequences of the stated length over values^dim (measures: over values^(number of weights or positions), '
+                         'the unread half of the vector constant)',
+            'mask_levels': {
+                'collapse_at': {'3': 'None + every subset of indices', '2': 'None, {}, {0}, {0,last}', '1': 'None, {last}', '0': 'None'},
+                'collapse_as': {'3': 'None + every subset of indices + every non-empty subset of pairs in both orientations + every {index, pair} mix',
+                                '2': 'None, {}, {last}, {last pair}, {reversed first pair, last}', '1': 'None + one mixed mask', '0': 'None'},
+                'measures': {'3': 'None + every subset of the (measure,index) / (measure,pair in both orientations) universe in dict, set and where format '
+                                  '+ where as list + dict with an empty entry', '2': 'None + {}, first, last, all (+ reversed last pair) in 3 formats',
+                             '1': 'None + last item in 3 formats', '0': 'None'}},
+            'enumerated': table,
             'collapse_cost': {'samples_in_monitor': [3, 4, 5], 'params': [1, 2], 'cost_values': list(COST_VALUES), 'limit': [0.5, 1.0],
-                              'samples': [1, 2, 3], 'clip': [False, True]},
+                              'samples': [1, 2, 3], 'clip': [False, True],
+                              'layouts': '1 param: ascending and descending order of recording; 2 params: x_k = (k, pi(k)) for every permutation pi'},
         },
-        'solvers': {'solvers': list(solverlab.SOLVERS), 'setups': SETUPS, 'terminations': {k: TERMS[k] for k in (sorted(TERMS) if ctx.thorough else QUICK_TERMS)},
-                    'ops': OPS, 'general_depth': depth, 'structured_histories': len(structured()), 'configs': len(cfgs),
-                    'seeds': sorted(set(c['seed'] for c in cfgs)), 'limits': [120, 1500], 'evaluation_horizon': 4000, 'collapse_call_horizon': L.MAX_COLLAPSE_CALLS},
+        'solvers': {'solvers': list(solverlab.SOLVERS), 'setups': SETUPS,
+                    'terminations': {k: TERMS[k] for k in (sorted(TERMS) if ctx.thorough else QUICK_TERMS + QUICK_MTERMS)},
+                    'ops': OPS, 'general_depth': {'parameter setups': depth, 'measure setup': depth - 1},
+                    'structured_histories': structured(), 'configs': len(cfgs),
+                    'seeds': sorted(set(c['seed'] for c in cfgs)), 'DE_populations': 'NP=4; single start point and (odd seeds) random in [-1,2]^n',
+                    'limits(generations,evaluations)': {'default': [120, 1500], 'no_stop': [40, 400]},
+                    'evaluation_horizon': 4000, 'collapse_call_horizon': L.MAX_COLLAPSE_CALLS},
     }
     ctx.rule = ("detectors: a case is one (history, tolerance, window, target/offset, mask) tuple evaluated on a real Monitor; ALL histories of "
                 "each stated length over {0,1e-5,1}^dim are used. distinct_nontrivial counts distinct (window content, setting) classes in which "
